@@ -1,6 +1,8 @@
 SPECIFICATION Spec
 CONSTANTS
   MaxReq = 3
+  McastEnabled = FALSE
+  Protos <- ProtosUT
   UDPEnabled = TRUE
   HasRecord = FALSE
   HasPlay = TRUE
